@@ -16,6 +16,17 @@
 (*   arch      "valid" | "invalid"   (header fails validation)             *)
 (*   pin       "none" | "match" | "mismatch"   (--verify-header)           *)
 (*   nseeds, stdin_seed, verify_out, transport  ("local" | "http")         *)
+(*   out       also "dangling": the output name is a symbolic link whose   *)
+(*             target does not exist - the name is taken (O_EXCL refuses), *)
+(*             nothing may be created behind it by a refused run           *)
+(*   late      "none" | "bad_chunk": the header is valid but a stored      *)
+(*             chunk is damaged - the clone fails *after* the output was   *)
+(*             opened and partly written (not a refusal: C16 still says    *)
+(*             nothing is removed or renamed, C04 that it does not succeed)*)
+(*   race      "none" | "appears": the output is absent when the command   *)
+(*             starts and ANOTHER PARTY creates it before the command      *)
+(*             opens it (environment action OtherCreates) - "already       *)
+(*             exists" must be decided by the open itself                  *)
 (*   stale_tmp "none" | "longer" | "shorter": a file already sits at the   *)
 (*             path of compress's temporary chunk file (left by an         *)
 (*             interrupted run), longer / shorter than the data to come    *)
@@ -29,22 +40,27 @@
 (***************************************************************************)
 EXTENDS Integers, Sequences, FiniteSets, TLC
 
-VARIABLES m, pc, touched, exit, outstate
-vars == <<m, pc, touched, exit, outstate>>
+VARIABLES m, pc, touched, exit, outstate,
+          appeared     \* race = "appears": the other party has created the output
+vars == <<m, pc, touched, exit, outstate, appeared>>
 
 IsBd(mm) == mm.out \in {"bd_small", "bd_tail", "bd_equal", "bd_large"}
 TooSmall(mm) == mm.out \in {"bd_small", "bd_tail"}
 Exists(mm) == mm.out # "absent"
+\* does the output exist at the moment the command opens it
+ExistsAtOpen(mm) == Exists(mm) \/ mm.race = "appears"
 
 \* ---- pure predictions, shared with CliTrace
 \* why (if at all) the command refuses to proceed
 Refusal(mm) ==
-  IF mm.cmd = "compress" THEN (IF Exists(mm) /\ ~mm.force THEN "exists" ELSE "none")
+  IF mm.cmd = "compress" THEN (IF ExistsAtOpen(mm) /\ ~mm.force THEN "exists" ELSE "none")
   ELSE IF mm.arch = "invalid" THEN "archive"
   ELSE IF mm.pin = "mismatch" THEN "pin"
-  ELSE IF Exists(mm) /\ ~mm.force /\ ~mm.inplace THEN "exists"
+  ELSE IF ExistsAtOpen(mm) /\ ~mm.force /\ ~mm.inplace THEN "exists"
   ELSE IF TooSmall(mm) THEN "bd_small"
   ELSE "none"
+\* the command proceeds and then fails while it works (a damaged chunk): not a refusal
+LateFailure(mm) == mm.cmd = "clone" /\ mm.late # "none" /\ Refusal(mm) = "none"
 \* is the output opened at all, and with which flags
 OutputOpened(mm) == Refusal(mm) \notin {"archive", "pin"}
 OpenFlags(mm) ==
@@ -59,50 +75,56 @@ Finish(code) == pc' = "end" /\ exit' = code
 
 InitArchive == /\ pc = "init_archive" /\ Touch("archive", "read_open")
                /\ IF m.arch = "invalid" THEN Finish(1) ELSE pc' = "check_pin" /\ UNCHANGED exit
-               /\ UNCHANGED <<m, outstate>>
+               /\ UNCHANGED <<m, outstate, appeared>>
 CheckPin == /\ pc = "check_pin"
             /\ IF m.pin = "mismatch" THEN Finish(1) ELSE pc' = "open_output" /\ UNCHANGED exit
-            /\ UNCHANGED <<m, touched, outstate>>
+            /\ UNCHANGED <<m, touched, outstate, appeared>>
+\* environment: another party creates the output (with content of its own) before the command opens it
+OtherCreates == /\ m.race = "appears" /\ ~appeared /\ pc \in {"init_archive", "check_pin", "open_output"}
+                /\ appeared' = TRUE /\ outstate' = "prior"
+                /\ UNCHANGED <<m, pc, touched, exit>>
+Present == Exists(m) \/ appeared
 OpenOutput ==
-  /\ pc = "open_output"
+  /\ pc = "open_output" /\ (m.race = "appears" => appeared)
   /\ LET f == OpenFlags(m) IN
-     IF Exists(m) /\ f.excl THEN Finish(1) /\ UNCHANGED <<touched, outstate>>          \* EEXIST
-     ELSE /\ touched' = touched \cup {<<"output", IF ~Exists(m) THEN "create" ELSE IF f.trunc THEN "trunc_open" ELSE "rw_open">>}
-          /\ outstate' = IF ~Exists(m) \/ f.trunc THEN "empty" ELSE outstate
+     IF Present /\ f.excl THEN Finish(1) /\ UNCHANGED <<touched, outstate>>          \* EEXIST
+     ELSE /\ touched' = touched \cup {<<"output", IF ~Present THEN "create" ELSE IF f.trunc THEN "trunc_open" ELSE "rw_open">>}
+          /\ outstate' = IF ~Present \/ f.trunc THEN "empty" ELSE outstate
           /\ pc' = (IF m.cmd = "compress" THEN "open_temp" ELSE "bd_check")
           /\ UNCHANGED exit
-  /\ UNCHANGED m
+  /\ UNCHANGED <<m, appeared>>
 BdCheck == /\ pc = "bd_check"
            /\ IF TooSmall(m) THEN Finish(1) ELSE pc' = "work" /\ UNCHANGED exit
-           /\ UNCHANGED <<m, touched, outstate>>
+           /\ UNCHANGED <<m, touched, outstate, appeared>>
 \* scan (in place), reorder, seeds, fetch: the output is written; seeds and stdin are only read
 Work == /\ pc = "work"
         /\ touched' = touched \cup {<<"output", "write">>} \cup (IF m.nseeds > 0 THEN {<<"seed", "read_open">>} ELSE {})
-        /\ outstate' = "source_prefix"
-        /\ pc' = "resize" /\ UNCHANGED <<m, exit>>
+        /\ IF LateFailure(m) THEN outstate' = "partial" /\ Finish(1)      \* the damaged chunk is met: error, the output stays as far as it got
+           ELSE outstate' = "source_prefix" /\ pc' = "resize" /\ UNCHANGED exit
+        /\ UNCHANGED <<m, appeared>>
 Resize == /\ pc = "resize"
           /\ IF IsBd(m) THEN UNCHANGED <<touched, outstate>>
              ELSE Touch("output", "truncate") /\ outstate' = "source"
-          /\ pc' = "verify" /\ UNCHANGED <<m, exit>>
+          /\ pc' = "verify" /\ UNCHANGED <<m, exit, appeared>>
 \* Deviation O1 (DESIGN.md section 7), modelled as the code behaves: --verify-output checksums the whole output, so on a
 \* block device larger than the source the check fails although the first `source size` bytes are exact.
 VerifyFailsO1(mm) == mm.cmd = "clone" /\ mm.out = "bd_large" /\ mm.verify_out
-Verify == /\ pc = "verify" /\ Finish(IF VerifyFailsO1(m) THEN 1 ELSE 0) /\ UNCHANGED <<m, touched, outstate>>
+Verify == /\ pc = "verify" /\ Finish(IF VerifyFailsO1(m) THEN 1 ELSE 0) /\ UNCHANGED <<m, touched, outstate, appeared>>
 \* compress: temp chunk file created (truncating), filled, copied into the archive, removed
-OpenTemp == /\ pc = "open_temp" /\ Touch("input", "read_open") /\ pc' = "pipeline" /\ UNCHANGED <<m, exit, outstate>>
+OpenTemp == /\ pc = "open_temp" /\ Touch("input", "read_open") /\ pc' = "pipeline" /\ UNCHANGED <<m, exit, outstate, appeared>>
 Pipeline == /\ pc = "pipeline" /\ touched' = touched \cup {<<"temp", IF m.stale_tmp = "none" THEN "create" ELSE "trunc_open">>, <<"temp", "write">>}
-            /\ pc' = "write_archive" /\ UNCHANGED <<m, exit, outstate>>
+            /\ pc' = "write_archive" /\ UNCHANGED <<m, exit, outstate, appeared>>
 WriteArchive == /\ pc = "write_archive" /\ touched' = touched \cup {<<"output", "write">>, <<"temp", "read_open">>}
-                /\ outstate' = "archive" /\ pc' = "unlink_temp" /\ UNCHANGED <<m, exit>>
-UnlinkTemp == /\ pc = "unlink_temp" /\ Touch("temp", "unlink") /\ Finish(0) /\ UNCHANGED <<m, outstate>>
+                /\ outstate' = "archive" /\ pc' = "unlink_temp" /\ UNCHANGED <<m, exit, appeared>>
+UnlinkTemp == /\ pc = "unlink_temp" /\ Touch("temp", "unlink") /\ Finish(0) /\ UNCHANGED <<m, outstate, appeared>>
 
-Next == InitArchive \/ CheckPin \/ OpenOutput \/ BdCheck \/ Work \/ Resize \/ Verify
+Next == OtherCreates \/ InitArchive \/ CheckPin \/ OpenOutput \/ BdCheck \/ Work \/ Resize \/ Verify
         \/ OpenTemp \/ Pipeline \/ WriteArchive \/ UnlinkTemp \/ (pc = "end" /\ UNCHANGED vars)
 
 \* ---- properties
 Ended == pc = "end"
 \* the pure prediction agrees with the machine
-RefusalAgrees == Ended => (exit = 1 <=> (Refusal(m) # "none" \/ VerifyFailsO1(m)))
+RefusalAgrees == Ended => (exit = 1 <=> (Refusal(m) # "none" \/ VerifyFailsO1(m) \/ LateFailure(m)))
 \* C14: a refused operation leaves the output untouched ...
 RefusalUntouched == (Ended /\ exit = 1 /\ Refusal(m) # "none") => /\ \A h \in WriteHows : <<"output", h>> \notin touched
                                            /\ outstate = "prior"
@@ -116,5 +138,11 @@ CloneTouchesOnlyOutput == m.cmd = "clone" => \A t \in touched : (t[2] \in WriteH
 CompressLeavesOnlyArchive == (m.cmd = "compress" /\ Ended /\ exit = 0) =>
    /\ (<<"temp", "create">> \in touched \/ <<"temp", "trunc_open">> \in touched) => <<"temp", "unlink">> \in touched
    /\ \A t \in touched : t[2] \in WriteHows => t[1] \in {"output", "temp"}
-SuccessMeansSource == (m.cmd = "clone" /\ Ended /\ Refusal(m) = "none") => outstate = IF IsBd(m) THEN "source_prefix" ELSE "source"
+\* C16: a clone that fails while it works removes nothing either - the output stays (as far as it got)
+LateFailureKeepsOutput == (Ended /\ LateFailure(m)) => /\ <<"output", "unlink">> \notin touched /\ <<"output", "rename">> \notin touched
+                                                     /\ outstate = "partial" /\ exit = 1
+\* C14 under the race: the file the other party created is refused like any existing file - never written, truncated or replaced
+RaceRefused == (Ended /\ m.race = "appears" /\ ~m.force /\ ~m.inplace /\ m.arch = "valid" /\ m.pin # "mismatch") =>
+                  exit = 1 /\ outstate = "prior" /\ \A h \in WriteHows : <<"output", h>> \notin touched
+SuccessMeansSource == (m.cmd = "clone" /\ Ended /\ Refusal(m) = "none" /\ ~LateFailure(m)) => outstate = IF IsBd(m) THEN "source_prefix" ELSE "source"
 =============================================================================
